@@ -64,7 +64,12 @@ func (g *Gateway) HandleGatewayProtocol(w http.ResponseWriter, r *http.Request) 
 	id := identity.FromRequestCtx(r)
 
 	connId := r.Header.Get(rdgConnectionIdKey)
+	// only the RDG_IN_DATA request of a legacy connection joins a cached tunnel, and only that of the
+	// user who opened it. Anything else starts a tunnel of its own with the identity of this request
 	x, found := c.Get(connId)
+	if found && (r.Method != MethodRDGIN || x.(*Tunnel).User.UserName() != id.UserName()) {
+		found = false
+	}
 	if !found {
 		t = &Tunnel{
 			RDGId:      connId,
